@@ -121,6 +121,22 @@ def weak_revalidation(p, i, j, R, W):
                     if isinstance(x, tuple) and x[:2] == ("field", ("field", stored, "header")) and rres in atoms(y):
                         if isinstance(y, tuple) and y[0] == "field" and y[2] == x[2]:
                             fields.add(x[2])
+    # a removal that goes ahead when a version field of the stored record DIFFERS from the judged one removes exactly the
+    # newer versions it must spare
+    differs = set()
+    for c, truth, _s, at in p.state.pc:
+        if at <= i:
+            continue
+        for a in [c] + list(atoms(c)):
+            if isinstance(a, tuple) and a and a[0] == "cmp" and a[1] in ("Eq", "Ne"):
+                want_ne = (a[1] == "Ne" and truth is True and a is c) or (a[1] == "Eq" and truth is False and a is c)
+                if not want_ne:
+                    continue
+                for x, y in ((a[2], a[3]), (a[3], a[2])):
+                    if isinstance(x, tuple) and x[:2] == ("field", ("field", stored, "header")) and x[2] in ("cas", "timestamp") and rres in atoms(y):
+                        differs.add(x[2])
+    if differs and W.extra.get("removed"):
+        return "the removal goes ahead when the stored record's %s DIFFERS from the record that was judged: it removes a newer version of the item (an acknowledged store) and leaves the judged one" % sorted(differs)
     if "timestamp" in fields:
         return None
     if "cas" in fields and TOKENS_UNIQUE[0]:
